@@ -359,17 +359,55 @@ def reference(cfg):
     bk = set(map(tuple, cfg["bank"]["keys"]))
     if cfg["bank"]["M"] % 2 == 0:
         return ("raises", "even filters need literal padding")
-    complete = all(reach(bk, ins, t) for t in mid) and all(reach(bk, mid, t) for t in mid)
+    ub = set()
     if cls == "unet" and ds > 0:
         if cfg["up_bank"]["M"] != 2:
             return ("raises", "up-convolution does not restore the extents")
         ub = set(map(tuple, cfg["up_bank"]["keys"]))
-        complete = complete and all(reach(ub, mid, t) for t in mid)
         if cfg.get("mid_keys") and any(c != cfg["depth"] for _, c in cfg["mid_keys"]):
             return ("weak", None)
-    if not complete:
-        return ("weak", None)
-    return ("exact", tuple((t, c) for t, c in tsig(outs) if reach(bk, mid, t)))
+    # any bank (complete or not): the types reachable through the chain of layers
+    return chain_reference(cls, cfg, ins, mid, tsig(outs), bk, ub)
+
+
+def chain_reference(cls, cfg, ins, mid, outs, bk, ub):
+    """The property's sentence for an ARBITRARY bank, layer by layer, on plain Python sets/lists and
+    independently of the Lean model: a layer produces target type t iff some type s present in its
+    input has the filter type (k_s+k_t, (p_s+p_t)%2) in the bank; mid layers target the mid types.
+    returns ("exact", sig) | ("raises", why) | ("weak", None)"""
+    def step(bank, present):
+        return [t for t in mid if reach(bank, present, t)]
+
+    if cls in ("resnet", "dilresnet"):
+        per_stage = cfg.get("num_conv", 2) if cls == "resnet" else 7
+        x = step(bk, step(bk, ins))
+        for _ in range(cfg.get("num_blocks", 0)):
+            r = x
+            for _ in range(per_stage):
+                x = step(bk, x)
+            if set(x) != set(r):
+                return ("raises", "residual addition of different key sets")
+        x = step(bk, x)
+    else:
+        x = ins
+        for _ in range(cfg["num_conv"]):
+            x = step(bk, x)
+        skips = []
+        for _ in range(cfg.get("num_downsamples", 0)):
+            skips.append(x)
+            for _ in range(cfg["num_conv"]):
+                x = step(bk, x)
+        for r in reversed(skips):
+            up = step(ub, x)
+            if set(up) != set(r):
+                # some block reaches the next layer with half the channels it was built for: the
+                # property does not say what must happen (the code raises iff that block feeds a
+                # convolution); left to the order clause + the correspondence with mkUNet
+                return ("weak", None)
+            x = up
+            for _ in range(cfg["num_conv"]):
+                x = step(bk, x)
+    return ("exact", tuple((t, c) for t, c in outs if reach(bk, x, t)))
 
 
 def model_case(ctx: Ctx, cfg, tag=""):
@@ -435,6 +473,12 @@ def model_case(ctx: Ctx, cfg, tag=""):
     except DriverReject as e:
         mo = {"raises": str(e)}
     kind, want = reference(cfg)
+    closed = None
+    if cfg["equivariant"] and "bank" in dcfg:
+        try:
+            closed = ctx.driver.call("c20.reach", **{"class": cls}, cfg=dcfg)
+        except DriverReject as e:
+            closed = {"rejected": str(e)}
     case = dict(cfg)
     case.update({"kind": "model", "impl": impl, "model": mo, "reference": kind,
                  "expected_sig": jsig(want) if kind == "exact" else None,
@@ -453,6 +497,30 @@ def model_case(ctx: Ctx, cfg, tag=""):
                                           "use_bias", "use_group_norm", "dims", "torus", "impl", "wall_s")})
     log(f"[C20] {cls}/{mode} bias={cfg['use_bias']} gn={cfg['use_group_norm']} D={D} dims={dims} "
         f"-> {impl.get('sig', impl.get('raises'))} ({case['wall_s']}s)")
+    if closed is not None and "rejected" not in closed:
+        # Lean closed form (Model/C20Banks.lean: resnetSig / dilresnetSig / unetSig) against the Python
+        # layerwise oracle and against the real output
+        case["closed_form"] = closed
+        ctx.hist("closed_form", "raises/none" if closed["closed"] is None else
+                 ("empty" if not closed["closed"] else
+                  ("partial" if len(closed["closed"]) < len(cfg["output_keys"]) else "all requested types")))
+        residual = kind == "raises" and want == "residual addition of different key sets"
+        if kind == "exact" and closed["closed"] != jsig(want):
+            ctx.violation("correspondence", "python layerwise oracle differs from the Lean closed form "
+                          f"({cls}Sig)", case)
+            return
+        if residual and closed["closed"] is not None:
+            ctx.violation("correspondence", "python layerwise oracle says the residual addition raises, the "
+                          "Lean closed form returns a signature", case)
+            return
+        if closed["closed"] is not None and "raises" not in impl and "raises" not in mo \
+                and impl["sig"] != closed["closed"] and kind != "exact":
+            ctx.violation("correspondence", "real output signature differs from the Lean closed form", case)
+            return
+        if kind == "exact" and closed["absent"] != [list(t) for t, _ in tsig(out_sig) if t not in
+                                                     [w[0] for w in want]]:
+            ctx.violation("correspondence", "absentTypes differs from the unreachable requested types", case)
+            return
     if kind == "raises":
         if "raises" not in impl and "raises" in mo:
             # the model says the code rejects this configuration, the code ran: only a modelling gap
@@ -612,6 +680,94 @@ def random_model(ctx: Ctx, i: int, allow_d3: bool):
     return cfg
 
 
+# banks restricted to a subset of the filter types (d = 2, M = 3; the up-sampling bank M = 2)
+SUBSETS = {
+    "scalar+vector": {(0, 0), (1, 0)},
+    "even parity": {(0, 0), (1, 0), (2, 0)},
+    "no (2,0)": {(0, 0), (1, 0), (1, 1), (2, 1)},
+    "no (0,0)": {(1, 0), (1, 1), (2, 0), (2, 1)},
+    "odd parity": {(1, 1), (2, 1)},
+    "vector only": {(1, 0)},
+    "order 2 only": {(2, 0)},
+}
+
+
+def keep_bank(bank, keep):
+    return sub_bank(bank, set(bank.keys()) - set(keep))
+
+
+def partial_bank_models(ctx: Ctx, n_random: int):
+    """equivariant ResNet / DilResNet / UNet built with banks restricted to subsets of the filter
+    types, signatures with pseudo-types: the real output signature (types, order, channels) against
+    the layerwise reachability oracle, the Lean closed form and the forward-pass model"""
+    rng = ctx.rng
+    b3, b2 = get_bank(2, 3), get_bank(2, 2)
+    S = lambda *e: [[list(t), c] for t, c in e]  # noqa: E731
+    base = dict(D=2, depth=2, activation="relu", use_group_norm=False, torus=[True, False], equivariant=True,
+                use_bias="auto")
+    L = []
+    # pseudo-vector input, bank {(0,0),(1,0)}: only the pseudo types come out, in requested order
+    L.append(dict(base, **{"class": "resnet"}, input_keys=S(((1, 1), 1)),
+                  output_keys=S(((1, 0), 2), ((0, 1), 1), ((0, 0), 3), ((1, 1), 1)), num_blocks=1, num_conv=2,
+                  preactivation_order=False, use_group_norm=True, dims=[3, 4],
+                  _bank=keep_bank(b3, SUBSETS["scalar+vector"])))
+    # bank {(1,0)} alternates scalar <-> vector: one layer per stage cannot add its residual (raises)
+    L.append(dict(base, **{"class": "resnet"}, input_keys=S(((0, 0), 1)),
+                  output_keys=S(((0, 0), 1), ((1, 0), 2)), mid_keys=S(((0, 0), 2), ((1, 0), 2)), num_blocks=1,
+                  num_conv=1, preactivation_order=False, dims=[4, 4], _bank=keep_bank(b3, SUBSETS["vector only"])))
+    # no mid type reachable: an EMPTY multi-image comes back (no exception)
+    L.append(dict(base, **{"class": "unet"}, input_keys=S(((0, 0), 1)), output_keys=S(((0, 0), 1), ((1, 0), 2)),
+                  num_downsamples=1, num_conv=1, dims=[4, 4], _bank=keep_bank(b3, SUBSETS["order 2 only"]),
+                  _up_bank=keep_bank(b2, {(0, 0)}), use_bias="mean"))
+    # even parity only, scalar + pseudo-scalar input, UNet with a restricted up-sampling bank as well
+    L.append(dict(base, **{"class": "unet"}, input_keys=S(((0, 0), 1), ((0, 1), 1)),
+                  output_keys=S(((1, 1), 1), ((1, 0), 2), ((0, 1), 1), ((0, 0), 3)), num_downsamples=1, num_conv=1,
+                  dims=[4, 6], _bank=keep_bank(b3, SUBSETS["even parity"]),
+                  _up_bank=keep_bank(b2, SUBSETS["even parity"]), use_bias=False, activation="gelu"))
+    for cfg in L:
+        ctx.hist("bank_subset", "fixed")
+        model_case(ctx, cfg, tag=" [partial bank]")
+    names = sorted(SUBSETS)
+    pool = [(0, 0), (0, 1), (1, 0), (1, 1)]
+    for i in range(n_random):
+        cls = ["dilresnet", "resnet", "unet"][i % 3]
+        # the four larger subsets twice as often as the single-type / odd-parity ones (those mostly give
+        # an empty output)
+        wnames = names + ["scalar+vector", "even parity", "no (2,0)", "no (0,0)"] * 2
+        name = wnames[int(rng.integers(len(wnames)))]
+        nin, nout = int(rng.integers(1, 3)), int(rng.integers(2, 5))
+        if int(rng.integers(4)) == 0:
+            pool_i = pool + [(2, 0)]
+        else:
+            pool_i = pool
+        cfg = dict(base, **{"class": cls}, input_keys=rand_sig(rng, pool_i, nin),
+                   output_keys=rand_sig(rng, pool_i, min(nout, len(pool_i)), cmax=4),
+                   depth=int(rng.integers(1, 3)), use_bias=BIASES[int(rng.integers(5))],
+                   use_group_norm=bool(rng.integers(2)) and pool_i is pool,
+                   activation=[None, "relu", "tanh"][int(rng.integers(3))],
+                   torus=[bool(v) for v in rng.integers(0, 2, size=2)],
+                   _bank=keep_bank(b3, SUBSETS[name]))
+        if cls == "unet":
+            ds = int(rng.integers(1, 3))
+            if ctx.tier == "quick":
+                ds = 1  # two-level partial-bank UNets take up to ~30 s to trace: thorough tier only
+            upname = name if rng.integers(3) else names[int(rng.integers(len(names)))]
+            cfg.update(num_downsamples=ds, num_conv=int(rng.integers(1, 3)),
+                       dims=[int(m) * 2**ds for m in rng.integers(1, 3, size=2)],
+                       _up_bank=keep_bank(b2, SUBSETS[upname]))
+        elif cls == "resnet":
+            cfg.update(num_blocks=int(rng.integers(0, 3)), num_conv=int(rng.integers(1, 3)),
+                       preactivation_order=bool(rng.integers(2)), dims=[int(v) for v in rng.integers(2, 5, size=2)])
+        else:
+            cfg.update(num_blocks=int(rng.integers(0, 2)), dims=[int(v) for v in rng.integers(2, 5, size=2)])
+        if cls != "unet" and rng.integers(3) == 0:
+            keys = list(dict.fromkeys([tuple(t) for t, _ in cfg["input_keys"] + cfg["output_keys"]]))
+            keys = [keys[int(j)] for j in rng.permutation(len(keys))]
+            cfg["mid_keys"] = [[list(t), int(rng.integers(1, 3))] for t in keys]
+        ctx.hist("bank_subset", name)
+        model_case(ctx, cfg, tag=f" [partial bank: {name}]")
+
+
 def union_cases(ctx: Ctx, n: int):
     import ginjax.geometric as geom
 
@@ -739,7 +895,7 @@ def replay(ctx: Ctx, rep: dict):
                   tsig([(tuple(t), c) for t, c in case["target_keys"]]), case["use_bias"],
                   tuple(x["dims"]), tuple(x["torus"]), case.get("opts") or {}, order, tag=" [replay]")
     elif kind == "model":
-        drop = ("kind", "impl", "model", "reference", "expected_sig", "reference_note", "wall_s")
+        drop = ("kind", "impl", "model", "reference", "expected_sig", "reference_note", "wall_s", "closed_form")
         cfg = {k: v for k, v in case.items() if k not in drop}
         if cfg.get("bank"):
             cfg["_bank"] = bank_from_json(cfg["D"], cfg["bank"])
@@ -759,6 +915,10 @@ def run(ctx: Ctx):
         "downsamples 0-2, normalisation, bias setting, activation in {None, relu, gelu, tanh, callable}, "
         "kernel size in {1,2,3,(3,2),None}, torus flags, non-square extents = multiples of 2^downsamples "
         "(one in eight made incompatible on purpose), banks with filter types removed, explicit mid_keys; "
+        "equivariant models with banks restricted to subsets of the filter types (scalar+vector only, "
+        "even parity only, no (2,0), no (0,0), odd parity only, a single type; also for the up-sampling "
+        "bank) on signatures with pseudo-types, judged by the layerwise reachability oracle (exact "
+        "signature, or 'raises' when a residual stage changes its key set, or an empty multi-image); "
         "d=3 in the thorough tier); each built and run once, observable = (signature in order, extents, "
         "D, flags) or 'raises'.  layers: ml.ConvContract on the D6/D10 witnesses, then target key lists "
         "in every order x four banks x five bias settings x random inputs.  re-layouts: "
@@ -785,6 +945,8 @@ def run(ctx: Ctx):
     wrapper_cases(ctx, 4 if quick else 40)
     for cfg in fixed_models(ctx):
         model_case(ctx, cfg)
+    partial_bank_models(ctx, 3 if quick else 90)
+    log(f"[C20] partial-bank models done at {time.time() - t0:.0f}s")
     n_rand = 10 if quick else 290
     for i in range(n_rand):
         model_case(ctx, random_model(ctx, i + int(ctx.rng.integers(0, 30)) if quick else i, allow_d3=not quick))
